@@ -11,7 +11,7 @@ HINSERT = "std::collections::hash::map::HashMap::insert"
 
 
 def run(chk, prog):
-    chk.rules_live = ["R1", "R2", "R3", "R4"]
+    chk.rules_live = ["R1", "R2", "R3", "R4", "R5"]
     chk.explanation = (
         "Attribute + dominance rules: every field of type HashMap<Decoded<Hex>, Key> in a derived "
         "Deserialize struct is parsed with de::deserialize_keys; there, entries reach the map only "
@@ -37,6 +37,27 @@ def run(chk, prog):
                             "key table %s.%s is parsed without de::deserialize_keys: identifiers are not recomputed"
                             % (it["name"], f["name"]), "%s:%s" % (it["file"], it["line"]))
     chk.floor("R1", n, 2, "key tables (Root.keys, Delegations.keys)")
+    # R5: the identifier is the digest of the key's *content as parsed*: key_id() hashes the key's own
+    # serialisation, so every key type re-emits all it parsed (no one-sided serde attribute, unknown
+    # `keyval` members kept) — otherwise the identifier silently becomes that of a different content
+    nk = 0
+    for it in attrs.items:
+        if it["kind"] not in ("struct", "enum") or not it.get("file", "").endswith("schema/key.rs"):
+            continue
+        if "Serialize" not in it["derives"] and "Deserialize" not in it["derives"]:
+            continue
+        conts = [it] if it["kind"] == "struct" else it["variants"]
+        for c in conts:
+            for f in c["fields"]:
+                nk += 1
+                sm = serde_map(f["serde"])
+                bad = [a for a in ("skip", "skip_serializing", "skip_deserializing", "serialize_with", "with", "skip_serializing_if")
+                       if a in sm]
+                chk.require(not bad, "R5", "tough::schema::key::" + it["name"], "%s:re-emitted-as-parsed" % f["name"],
+                            "key field %s.%s is #[serde(%s)]: Key::key_id() digests the key's serialisation, so the "
+                            "identifier would no longer be the digest of the content that was parsed"
+                            % (it["name"], f["name"], ",".join(bad)), "%s:%s" % (it["file"], it["line"]))
+    chk.floor("R5", nk, 8, "fields of the key types in schema/key.rs")
     # R2
     ctx = ctx_of(prog, VIE)
     if ctx is None:
